@@ -194,7 +194,12 @@ class SensitiveWordAnonymizer(object):
     @classmethod
     def _generate_sensitive_word_regex(cls, sensitive_words):
         """Compile and return regex for the specified list of sensitive words."""
-        return re.compile("({})".format("|".join(sensitive_words)), re.IGNORECASE)
+        # Longest first (so a word is never shadowed by one of its prefixes), in a
+        # fixed order (independent of set iteration order), matched literally
+        ordered = sorted(sensitive_words, key=lambda w: (-len(w), w))
+        return re.compile(
+            "({})".format("|".join(re.escape(w) for w in ordered)), re.IGNORECASE
+        )
 
     def _get_or_generate_sensitive_word_replacement(self, sensitive_word):
         """Return the replacement string for the given sensitive word.
